@@ -435,6 +435,9 @@ def mk_construct(N, K):
             out.add("masked_array(wrong mask shape)", lambda: da.ma.masked_array(dx, mask=np.zeros(n + 2, dtype=bool)), lambda: np.ma.masked_array(x, mask=np.zeros(n + 2, dtype=bool)))
         for scalar in (True, False):
             out.add(f"masked_array(mask={scalar})", lambda: da.ma.masked_array(dx, mask=scalar, fill_value=fv), lambda: np.ma.masked_array(x, mask=scalar, fill_value=fv), fv=True)
+        # one-element masks that are NOT 0-d (numpy.ma broadcasts them over the data like a scalar)
+        for one in ([True], [[False]], np.array([True])):
+            out.add(f"masked_array(mask={one!r})", lambda: da.ma.masked_array(dx, mask=one, fill_value=fv), lambda: np.ma.masked_array(x, mask=one, fill_value=fv), fv=True)
         out.add("masked_array(dtype=f8)", lambda: da.ma.masked_array(d0, dtype="f8"), lambda: np.ma.masked_array(xm, dtype="f8"))
         out.add("masked_array(numpy data)", lambda: da.ma.masked_array(x, mask=dm, fill_value=fv), lambda: np.ma.masked_array(x, mask=m, fill_value=fv), fv=True)
         for name, d in (("from_array", d0), ("masked_array", d1)):
